@@ -528,6 +528,7 @@ def run(ctx, res):
         if okit:
             res.ok(rid5, "iter/%s" % ("into" if "IntoIter" in it.path else "ref"), it.loc(), "get_tree(tree_idx); advance only on Some")
     r7_registration(F, res)
+    r9_all_paths(F, res)
     rid8 = res.rule("C03-R8", "every lookahead the lexer and the documented strategies leave is followed: nothing else takes tokens out of "
                     "the candidate list (shared with C06-R4: a dropped lookahead is a lost derivation)", floor=2)
     rt.token_mutators(F, res, rid8)
@@ -540,6 +541,65 @@ def run(ctx, res):
         "code restated): the reducer's re-queue discipline (completeness, no duplicates, the count) and the mixed-radix index "
         "decoding of solutions()/get_tree().")
     res.assumptions = ["the declined clause groups are not decided at all; a wrong re-queue condition is invisible to this check"]
+
+
+def r9_all_paths(F, res):
+    """The forest holds every derivation only if a reduction is carried out over EVERY path of its length through the GSS:
+    two partial paths that meet in a node with the same number of steps left are different derivations (different children),
+    not one. find_reduction_paths is a worklist: every pending path that is taken off is either extended over every back
+    edge of its root or delivered as a result - none is dropped, no back edge is skipped."""
+    from . import tbl
+    rid = res.rule("C03-R9", "find_reduction_paths enumerates paths, not nodes: every pending path taken off the worklist is extended "
+                   "over every back edge of its current root or pushed as a result; nothing is skipped as already seen", floor=2)
+    try:
+        g = F.one(rt.GLR + "find_reduction_paths$")
+    except Exception:      # noqa
+        res.anchor_lost(rid, "GlrParser::find_reduction_paths not found")
+        return
+    loops = tbl.loops_of(g)
+    outer = [h for h, body in loops.items() if any(callee(tm).endswith("::pop_front") for b, tm in g.calls() if b in body)]
+    if not outer:
+        res.anchor_lost(rid, "the worklist loop (pop_front) of find_reduction_paths not found", g.loc())
+        return
+    h = sorted(outer, key=lambda x: -len(loops[x]))[0]
+    inner = [x for x in loops if x != h and x in loops[h]]
+    n_out = n_in = 0
+    bad_out = bad_in = None
+    for p in Sim(g, F).run(entry=h):
+        if not (p.events and p.events[-1] == ("backedge", h)):
+            continue
+        if not any(e[0] == "call" and e[1].endswith("::pop_front") for e in p.events):
+            continue
+        n_out += 1
+        expands = any(e[0] == "call" and e[1].endswith("::backedges") for e in p.events)
+        delivers = any(e[0] == "call" and (e[1].endswith("::push") or e[1].endswith("::push_back")) and len(e[2]) > 1 and
+                       mir.contains(e[2][1], lambda x: isinstance(x, tuple) and x[0] == "agg" and str(x[1]).endswith("ReductionPath")) for e in p.events)
+        if not (expands or delivers):
+            bad_out = [fmt(c)[:70] + "=" + str(v) for c, v in p.cond][-3:]
+    for hi in inner:
+        for p in Sim(g, F).run(entry=hi):
+            if not (p.events and p.events[-1] == ("backedge", hi)):
+                continue
+            took = any(c[0] == "discr" and is_call(c[1], "Iterator>::next") and v == frozenset(["Some"]) for c, v in p.cond)
+            if not took:
+                continue
+            n_in += 1
+            if not any(e[0] == "call" and (e[1].endswith("::push_back") or e[1].endswith("::push")) for e in p.events):
+                bad_in = [fmt(c)[:70] + "=" + str(v) for c, v in p.cond][-3:]
+    if n_out == 0:
+        res.anchor_lost(rid, "no complete iteration of the worklist loop found", g.loc())
+        return
+    if bad_out:
+        res.violation(rid, "find_reduction_paths/worklist", "a pending path is taken off the worklist and neither extended nor delivered "
+                      "(when %s): the derivations that run through it are never reduced" % "; ".join(bad_out), g.loc())
+    else:
+        res.ok(rid, "find_reduction_paths/worklist", g.loc(), "%d iteration paths, each extends over the back edges or delivers" % n_out)
+    if inner:
+        if bad_in:
+            res.violation(rid, "find_reduction_paths/edges", "a back edge of the current root is passed over without a new pending path "
+                          "(when %s)" % "; ".join(bad_in), g.loc())
+        elif n_in:
+            res.ok(rid, "find_reduction_paths/edges", g.loc(), "%d iteration paths of the edge loop, each queues a pending path" % n_in)
 
 
 def r7_registration(F, res):
